@@ -31,6 +31,7 @@ func main() {
 	callers := flag.String("callers", "", "debug: list references to the named function")
 	manifest := flag.String("manifest", "", "print MANIFEST.json for the given properties.jsonl")
 	grep := flag.String("fn", "", "debug: list functions whose name contains this")
+	nilscan := flag.Bool("nilscan", false, "exploration: fields assigned nil, used, and never compared with nil")
 	flag.Parse()
 	if *manifest != "" {
 		if err := core.WriteManifest(*manifest); err != nil {
@@ -46,7 +47,7 @@ func main() {
 		return
 	}
 	if *dumpFuncs {
-		names, ptypes, err := core.ScanDeclsTyped(*repo)
+		names, ptypes, results, err := core.ScanDeclsFull(*repo)
 		if err != nil {
 			fmt.Fprintln(os.Stderr, err)
 			os.Exit(2)
@@ -57,7 +58,7 @@ func main() {
 		}
 		sort.Strings(ns)
 		for _, n := range ns {
-			fmt.Println(n + "\t" + strings.Join(names[n], ",") + "\t" + strings.Join(ptypes[n], ";"))
+			fmt.Println(n + "\t" + strings.Join(names[n], ",") + "\t" + strings.Join(ptypes[n], ";") + "\t" + results[n])
 		}
 		return
 	}
@@ -90,6 +91,11 @@ func main() {
 	}
 	if len(p.Normalized) > 0 {
 		fmt.Printf("normalised: inlined new unexported helper(s) before analysis: %s\n", strings.Join(p.Normalized, ", "))
+	}
+	if *nilscan {
+		fmt.Print(core.NilScan(p))
+		fmt.Print(core.NilScan2(p))
+		return
 	}
 	if *grep != "" {
 		for _, f := range p.All {
